@@ -170,3 +170,8 @@ def mixin_additional_binding_body_differs(case):
         if any(ab.get("body") != r.get("body") for ab in r.get("additional_bindings", [])):
             return True
     return False
+
+
+def async_rest_without_grpc(case):
+    o = case.get("options") or {}
+    return bool(o.get("async_rest")) and "grpc" not in (o.get("transport") or "grpc")
